@@ -757,6 +757,18 @@ class Exec:
                 pnz.facts.append(z3.If(b > 0, z3.And(q * b <= a, a < q * b + b), z3.And(q * b >= a, a > q * b + b)))
                 res.append((pnz, q))
             return res
+        if isinstance(op, ast.Mod) and a.sort() == I and b.sort() == I:
+            pz, pnz = self.split(p, b == 0)
+            res = []
+            if pz is not None:
+                res.append((pz, Raise("ZeroDivisionError", "line %d" % ln)))
+            if pnz is not None:
+                r = fresh("mod", I)      # Python: result has the sign of the divisor
+                pnz.facts.append(z3.If(b > 0, z3.And(0 <= r, r < b), z3.And(b < r, r <= 0)))
+                k = fresh("modq", I)
+                pnz.facts.append(a == k * b + r)
+                res.append((pnz, r))
+            return res
         if isinstance(op, ast.Pow):
             bb = z3.simplify(b)
             if z3.is_int_value(bb) and bb.as_long() == 2:
